@@ -139,3 +139,33 @@ Proof.
 Qed.
 
 End C33.
+
+(* ---- C35: the long-lived executor agrees with a brand-new one ---- *)
+Section C35.
+Variable w : world.
+Hypothesis Hnp : forall k, wpanic w k = None.
+Hypothesis Hwf : wf_world w.
+Variable rk : key -> nat.
+Hypothesis Hdag : forall i k d, In d (flatd w i k) -> rk d < rk k.
+
+Lemma freshv_ext inp inp' k : (forall x, inp' x = inp x) -> freshv w rk inp' k = freshv w rk inp k.
+Proof.
+  intros H. apply (freshv_local w rk Hdag inp inp' (fun _ => True)); [|exact I]. intros x _. split; [apply H|auto].
+Qed.
+
+(* Two executors with arbitrary histories behind them (Runs, overlapping Runs, Edits that evict the
+   keys whose input changed, plain Evicts, any schedules, any numbers of permits, different initial
+   inputs) whose current inputs agree: a Run of the same queries returns the same results on both.
+   With sB reached from init parB (inp sA) by one Run this is: incremental = batch. *)
+Theorem incremental_eq_batch parA parB inputsA inputsB sA sB idA idB ks mA mB :
+  reach w parA inputsA sA -> reach w parB inputsB sB -> (forall k, inp sA k = inp sB k) ->
+  idA < nthr sA -> tkey (thr sA idA) = None -> tpc (thr sA idA) = PRelease mA -> groups w sA idA = [ks] ->
+  idB < nthr sB -> tkey (thr sB idB) = None -> tpc (thr sB idB) = PRelease mB -> groups w sB idB = [ks] ->
+  tacc (thr sA idA) = tacc (thr sB idB).
+Proof.
+  intros HrA HrB Hinp A1 A2 A3 A4 B1 B2 B3 B4.
+  rewrite (run_returns_fresh_values w parA Hnp inputsA Hwf rk Hdag sA idA ks mA HrA A1 A2 A3 A4).
+  rewrite (run_returns_fresh_values w parB Hnp inputsB Hwf rk Hdag sB idB ks mB HrB B1 B2 B3 B4).
+  apply map_ext. intros k. f_equal. apply freshv_ext. assumption.
+Qed.
+End C35.
